@@ -228,10 +228,43 @@ pub fn hand(b: &mut Builder) {
     let mut cm = b.f("custom_missing_renamed");
     cm.rename = Some("caf\u{e9} cr\u{e8}me".to_string());
     cm.missing_fn = Some(b.fid());
-    let fields = vec![q, bs, tb, cm, b.f("plain")];
+    // blanks inside the quotes are part of the key
+    let mut pad = b.f("padded");
+    pad.rename = Some(" id ".to_string());
+    let mut tail = b.f("tailed");
+    tail.rename = Some("name\t".to_string());
+    let fields = vec![q, bs, tb, cm, pad, tail, b.f("plain"), b.f("id")];
     let s = b.strukt("HEscapedRename", Some(RenameAll::Camel), Deny::Default, Validate::No, fields);
     b.program("struct_escaped_rename", s.clone());
     b.program("vec_struct_escaped_rename", Desc::Vec(bx(s)));
+
+    // variants carrying several attributes of their own (laid out over one or several lines)
+    let variants = vec![
+        VariantDef { ident: "Circle".into(), rename: Some("shape".into()), rename_all: Some(RenameAll::Camel), fields: Some(vec![b.f("outer_radius"), b.f("line_width")]) },
+        VariantDef { ident: "Square".into(), rename: Some("box".into()), rename_all: Some(RenameAll::Camel), fields: Some(vec![b.f("side_length")]) },
+        VariantDef { ident: "Label".into(), rename: Some("TEXT".into()), rename_all: Some(RenameAll::Lower), fields: Some(vec![b.f("Font_Size"), b.f("content")]) },
+        VariantDef { ident: "Arrow".into(), rename: Some("arrow_to".into()), rename_all: Some(RenameAll::Camel), fields: Some(vec![b.f("head_size"), b.f("tail_size")]) },
+        VariantDef { ident: "Plain".into(), rename: None, rename_all: None, fields: Some(vec![b.f("head_size")]) },
+    ];
+    let e = b.add_type(
+        "HVariantAttrs",
+        TypeKind::Tagged { tag: "kind".into(), rename_all: None, deny: Deny::Default, validate: Validate::No, variants },
+    );
+    b.program("enum_variant_attrs", e.clone());
+    b.program("vec_enum_variant_attrs", Desc::Vec(bx(e)));
+
+    // variants that answer to the spelling of a number (versioned payloads): the tag is still a string
+    let variants = vec![
+        VariantDef { ident: "V1".into(), rename: Some("1".into()), rename_all: None, fields: Some(vec![b.f("name")]) },
+        VariantDef { ident: "V2".into(), rename: Some("2".into()), rename_all: None, fields: Some(vec![b.f("name"), b.f("size")]) },
+        VariantDef { ident: "V10".into(), rename: Some("10".into()), rename_all: None, fields: None },
+    ];
+    let e = b.add_type(
+        "HVersioned",
+        TypeKind::Tagged { tag: "version".into(), rename_all: None, deny: Deny::No, validate: Validate::No, variants },
+    );
+    b.program("enum_versioned", e.clone());
+    b.program("vec_enum_versioned", Desc::Vec(bx(e)));
 
     // leading underscores are part of the key wherever camelCase is not involved
     let mut oo = FieldDef::plain("_maybe_twice", Desc::Option(bx(Desc::Option(bx(sc(Sc::U8))))));
